@@ -21,14 +21,17 @@ fn main() {
     }
     util::install_panic_hook();
 
-    let mode = args[1].as_str();
-    let mut machine: Box<dyn Machine> = match mode {
-        "codec" => Box::new(codec::CodecMachine::new()),
-        _ => {
-            eprintln!("unknown mode {}", mode);
-            std::process::exit(2);
+    let mode = args[1].clone();
+    let make = move || -> Box<dyn Machine> {
+        match mode.as_str() {
+            "codec" => Box::new(codec::CodecMachine::new()),
+            _ => {
+                eprintln!("unknown mode {}", mode);
+                std::process::exit(2);
+            }
         }
     };
+    let mut machine = make();
 
     let stdin = io::stdin();
     let stdout = io::stdout();
@@ -39,6 +42,12 @@ fn main() {
         let line = line.unwrap();
         let line = line.trim();
         if line.is_empty() || line.starts_with('#') {
+            continue;
+        }
+        if line.starts_with("===") {
+            // case separator: fresh machine, echo the line
+            machine = make();
+            writeln!(out, "{}", line).unwrap();
             continue;
         }
         let toks: Vec<&str> = line.split(' ').filter(|t| !t.is_empty()).collect();
